@@ -647,6 +647,11 @@ DIRECTED = [
     # (false alarm of the first monitor, which only recognised cancellations delivered at a gate of the member's own code)
     [_a(12, [["spawn", 1, "spawn", [_a(2, [], [[1, ["wait", 1], "ok", []]])]],
              ["spawn", 2, "spawn", [["try", [_a(8, [], [[5, "ok", ["wait", 5], []]])]], ["await", 7]]]])],
+    # a disposable whose `__aexit__` returns True (asks to suppress): no say in a scope – the body's failure / cancellation is
+    # still the group's exit reason, the blocked member is cancelled, leaving terminates
+    [_a(1, [["spawn", 1, "spawn", [["await", 1]]], ["raise", "exc"]], [[1, "ok", "swallow", []]]), ["await", 9]],
+    [["try", [_a(1, [["spawn", 1, "spawn", [["await", 1]]], ["await", 2]], [[1, "ok", "swallow", []], [2, "ok", "ok", []]])]],
+     ["await", 9]],
     # scope objects constructed ahead of their `async with` (`hold`): before the enclosing scope exists and entered inside
     # it – spawns in the enclosing body after the inner block still join the enclosing group; constructed inside a scope
     # that has ended and entered outside any scope – a spawn afterwards is detached, never refused
